@@ -23,6 +23,12 @@ class Fn:
         i = f.find('src/')
         rel = f[i + 4:] if i >= 0 else os.path.basename(f)
         self.rel = 'src/' + rel
+        if info.get('home_file'):
+            # a provided trait method materialised for one implementor (materialise_provided): it is reported where it is
+            # written (the trait's file) but belongs to the module of the type it was materialised for
+            h = info['home_file']
+            j = h.find('src/')
+            rel = h[j + 4:] if j >= 0 else os.path.basename(h)
         self.module = rel[:-3] if rel.endswith('.rs') else rel      # e.g. key/tree
         self.family = self.module.split('/')[0]                      # key / map / set / seg
         self.line = info['span'][1]
@@ -91,12 +97,59 @@ VEC_MUTATORS = {'push', 'pop', 'insert', 'remove', 'swap_remove', 'retain', 'ret
                 'split_off', 'shrink_to_fit', 'shrink_to', 'fill', 'reverse', 'rotate_left', 'rotate_right'}
 
 
+def materialise_provided(facts):
+    """A trait method with a default body (`fn delete(&mut self, k) { let i = self.first_index_less(k); ... }`) is, for every
+    implementor that does not override it, that implementor's method.  The facts hold it once, generic over Self, with its
+    calls of the trait's other methods unresolved.  Here it is copied once per such implementor, under the path the
+    implementor's own method would have, with those calls resolved to the implementor's methods (or to other materialised
+    copies), so that every rule sees `<SetTree as SetCollection>::delete` wherever it is written."""
+    import copy
+    fns = facts['fns']
+    provided = [f for f in fns if f.get('self_ty') == 'Self' and f.get('impl_trait') and not f.get('trait_item') and f['kind'] == 'AssocFn' and f.get('mir')]
+    if not provided:
+        return []
+    impls = {}          # (trait, self_ty) -> {method name: fn info}
+    for f in fns:
+        if f.get('impl_trait') and f.get('trait_item') and f.get('self_ty') not in (None, 'Self'):
+            impls.setdefault((f['impl_trait'], f['self_ty']), {})[f['name']] = f
+    record = []
+    new = []
+    for (trait, self_ty), methods in impls.items():
+        sib = next(iter(methods.values()))
+        prefix = sib['path'][:sib['path'].rfind('::') + 2]
+        mine = {}
+        for p in provided:
+            if p['impl_trait'] == trait and p['name'] not in methods:
+                mine[p['name']] = p
+        for name, p in mine.items():
+            c = copy.deepcopy(p)
+            c['path'] = prefix + name
+            c['trait_item'] = trait + '::' + name
+            c['self_ty'] = self_ty
+            c['home_file'] = sib['span'][0]
+            c['provided_from'] = p['path']
+            for bb in c['mir']['blocks']:
+                t = bb.get('term') or {}
+                cal = t.get('callee') if t.get('k') == 'call' else None
+                if cal and cal.get('trait') == trait and cal.get('self_param') and cal.get('self_ty') == 'Self':
+                    tgt = methods.get(cal['name'])
+                    tpath = tgt['path'] if tgt is not None else (prefix + cal['name'] if cal['name'] in mine else None)
+                    if tpath:
+                        cal['resolved'] = {'path': tpath}
+            new.append(c)
+            record.append((p['path'], c['path']))
+    # closures of a provided method keep pointing at the generic original (they are analysed there)
+    fns.extend(new)
+    return record
+
+
 class Program:
     def __init__(self, facts, info=None):
         self.facts = facts
         self.info = info or {}
         self.crate = facts['crate']
         self.fns = {}
+        self.provided_record = materialise_provided(facts)
         for f in facts['fns']:
             fn = Fn(self, f)
             self.fns[fn.path] = fn
